@@ -265,6 +265,9 @@ def huge_history(rng, ctrl, mds, length):
             s.ack(range(len(s.out)) if rng.random() < 0.7 else [0], rng.choice(["real", "tiny", "none"]))
         elif s.out and rng.random() < 0.3:
             s.lose([0])
+        if rng.random() < 0.15:
+            # an MTU probe is confirmed / a black hole detected while the window is very large (window rescaling)
+            s.mtu(rng.choice(MDS + [rng.randrange(1200, 9001)]))
     return s.ops
 
 
